@@ -22,11 +22,12 @@ TrReset == /\ IsEv("Reset") /\ scene' = [s \in ShapeIds |-> NoRect] /\ own' = sc
            /\ queue' = <<>> /\ txn' = TRUE /\ steps' = 0 /\ am' = [s \in ShapeIds |-> 0]
 TrAdd    == IsEv("Add") /\ AddShape(Line.s, <<Line.r[1], Line.r[2], Line.r[3], Line.r[4]>>) /\ Reported
 TrMove   == IsEv("Move") /\ MoveRel(Line.s, <<Line.d[1], Line.d[2]>>) /\ Reported
+TrResize == IsEv("Resize") /\ MoveAbs(Line.s, <<Line.r[1], Line.r[2], Line.r[3], Line.r[4]>>) /\ Reported
 TrDelete == IsEv("Delete") /\ DeleteShape(Line.s) /\ Reported
 TrEnd    == IsEv("End") /\ MoveEnd(Line.c, Line.end + 1, <<Line.p[1], Line.p[2]>>) /\ Reported
 TrProc   == IsEv("Process") /\ Process /\ Reported
 TrTxn    == IsEv("SetTxn") /\ SetTxn(Line.b)
-TNext == TrReset \/ TrAdd \/ TrMove \/ TrDelete \/ TrEnd \/ TrProc \/ TrTxn
+TNext == TrReset \/ TrAdd \/ TrMove \/ TrResize \/ TrDelete \/ TrEnd \/ TrProc \/ TrTxn
 TraceSpec == TInit /\ [][TNext]_tvars
 Track == TLCSet(1, IF TLCGet(1) > l THEN TLCGet(1) ELSE l)
 Accepted == TLCGet(1) = Len(TraceLog) + 1
